@@ -74,6 +74,8 @@ fn zstd_source(_raw_stream: ByteStream, _data_size: ASize) -> Result<Arc<dyn Sou
 
 impl Cluster {
     fn build_plain_reader(&self) -> Result<()> {
+        #[cfg(jubako_verif)]
+        crate::verif_hooks::point("plain_switch", self.data_size.into_u64(), 0);
         let mut cluster_reader = self.reader.write().unwrap();
         if let ClusterReader::Plain(_) = *cluster_reader {
             return Ok(());
